@@ -141,6 +141,9 @@ func (s *Sbi) validate() (bool, error) {
 		if result, err := tls.validate(); err != nil {
 			return result, err
 		}
+	} else if s.Scheme == "https" {
+		// the https server reads Tls.Pem and Tls.Key
+		return false, errors.New("Invalid sbi.tls: required for scheme https")
 	}
 
 	result, err := govalidator.ValidateStruct(s)
